@@ -1062,6 +1062,8 @@ fn wire(r: &mut R, prop: &str) {
                     }
                     let out = des_op(r, des, &bs);
                     r.h.check(out != Out::Panic, || format!("{} panics on R255", des));
+                    let peak = r.h.last_peak;
+                    r.h.check(peak <= 64 * bs.len() + (1 << 20), || format!("{} allocated {} bytes at peak for {} input bytes on R255", des, peak, bs.len()));
                 }
             }
         }
@@ -1071,6 +1073,8 @@ fn wire(r: &mut R, prop: &str) {
             for f in [vec![], vec![0u8], vec![0xff; 4], vec![0xff, 0xff, 0xff, 0xff, 1], vec![1, 0, 0, 0, 0x20, 0, 0, 0], r.h.rng.bytes(32), r.h.rng.bytes(64), r.h.rng.bytes(96)] {
                 let out = des_op(r, op, &f);
                 r.h.check(out != Out::Panic, || format!("{} panics on R255 for {:?}", op, f));
+                let peak = r.h.last_peak;
+                r.h.check(peak <= 64 * f.len() + (1 << 20), || format!("{} allocated {} bytes at peak for {} input bytes on R255", op, peak, f.len()));
             }
         }
     }
